@@ -33,6 +33,9 @@ structure PfCfg where
   smap : StatusMap
   /-- `emptyMapMsgpack`: body of a created treasure when no seed is given -/
   defaultSeed : Bytes
+  /-- does `PatchFields` reject a seed that is not a msgpack map ("Non-map seeds yield
+      PatchStatusTypeMismatch") — or only one that does not parse -/
+  seedMustBeMap : Bool
   deriving Repr
 
 /-- `PatchFieldsMeta` (times as UnixNano; `setExp = none`: zero `time.Time`) -/
@@ -94,9 +97,16 @@ def pfBody (pc : PfCfg) (tr : Treasure) (seed' : Bytes) : Except Nat (Bytes × B
 
 /-- everything `PatchFields` checks before it patches: the body to patch and whether the call
     creates the treasure, or the status it gives up with -/
+def isMapBody : Bytes → Bool
+  | c :: _ => isMapCode c
+  | [] => false
+
+/-- the seed check of `PatchFields` (made whenever CreateIfNotExist is set) -/
+def seedOk (pc : PfCfg) (s : Bytes) : Bool := wf s && (!pc.seedMustBeMap || isMapBody s)
+
 def pfGate (pc : PfCfg) (tr : Treasure) (create : Bool) (seed : Bytes) : Except Nat (Bytes × Bool) :=
   if (!create && decide (tr.content = .absent)) = true then .error 2 else    -- KEY_NOT_FOUND
-  if (create && !wf (seedOf pc seed)) = true then .error 5 else              -- seed rejected
+  if (create && !seedOk pc (seedOf pc seed)) = true then .error 5 else       -- seed rejected: TYPE_MISMATCH
   pfBody pc tr (seedOf pc seed)
 
 /-- `PatchFields` (no cap predicate) -/
